@@ -831,14 +831,14 @@ def check_result_semantic(project: Project, rep) -> str:
         return Sc(sym.Opq("dm", (a.e,), None))
 
     def go(args):
-        I = Interp(project, Config(flags={"stub_func": {est: stub_est, dmq: stub_dm}}))
+        I = Interp(project, Config(flags={"stub_func": {est: stub_est, dmq: stub_dm}, "unroll_while": 12}))
         r = I.run(GH, args)
         return I, r
     g = lambda k: Sc(sym.Sym(f"g{k}"))
     want = lambda nm, i, j: sym.Opq(nm, (sym.Opq("dm", (sym.Sym(f"g{i}"),), None), sym.Opq("dm", (sym.Sym(f"g{j}"),), None)), None)
     status = "ok"
     n_cells = 0
-    for n in (2, 3, 4):
+    for n in (2, 3, 4, 5, 7):   # 5 and 7: 10 and 21 pairs — more than one batch of any small size, with a short last one
         try:
             I, r = go({fi.params[0]: Seq([g(k) for k in range(n)], "list"), fi.params[1]: NoneV()})
         except AnalysisError as ex:
@@ -923,6 +923,10 @@ def run(project: Project, rep, tier: str):
                        "the bounds matrices are assembled in a way the site rule does not read; their contents were decided by "
                        "GH-RESULT", nontrivial=False)
         sym_floor = 1
+    elif st_res == "refuted" and (pre_s.errors or pre_s.refutations):
+        # the evaluated result is already refuted; what the site rule makes of shapes it does not know adds nothing
+        rep.note("GH-SYM: the site rule does not read how the bounds matrices are assembled here; see GH-RESULT")
+        sym_floor = 0
     else:
         check_sym(project, rep)
         sym_floor = 5
